@@ -1,3 +1,3 @@
 module vinstr
 
-go 1.23
+go 1.26.4
